@@ -496,6 +496,25 @@ func genValueUint(n *node) func(*frame) (reflect.Value, uint64) {
 	return nil
 }
 
+// genValueShift returns the value of n, the count of a shift operation, as an unsigned integer.
+// A negative count raises a run-time panic.
+func genValueShift(n *node) func(*frame) (reflect.Value, uint64) {
+	switch n.typ.TypeOf().Kind() {
+	case reflect.Int, reflect.Int8, reflect.Int16, reflect.Int32, reflect.Int64:
+		value := genValue(n)
+		return func(f *frame) (reflect.Value, uint64) {
+			v := value(f)
+			i := v.Int()
+			if i < 0 {
+				// Let the host raise its run-time error: negative shift amount.
+				_ = 1 << i
+			}
+			return v, uint64(i)
+		}
+	}
+	return genValueUint(n)
+}
+
 func genValueFloat(n *node) func(*frame) (reflect.Value, float64) {
 	value := genValue(n)
 
